@@ -493,7 +493,7 @@ func init() {
 	register(&Rule{ID: "PURE.tmpl", Floor: 5,
 		Doc: "PURE.eval restricted to the mustache template: rendering writes only memory it allocated itself (the variable map it was given included)",
 		Run: func(c *Ctx) []*Obligation { return pureEvalFor(c, "PURE.tmpl", c.evalRoots()[3:]) }})
-	register(&Rule{ID: "PURE.global", Floor: 5,
+	register(&Rule{ID: "PURE.global", Floor: 2,
 		Doc: "module-wide: package-level variables (variants.Empty, Keywords, operators, operatorTypes, CharValidator) are written only during package initialisation, never reassigned, never mutated through",
 		Run: rulePureGlobal})
 	register(&Rule{ID: "PURE.nogo", Floor: 1,
